@@ -25,9 +25,9 @@ def check_program(b, inst):
         op = b.build(inst["prog"])
     except Exception as e:
         return [("build", "building the operator raised %s: %s" % (type(e).__name__, str(e)[:120]))], 0
-    energy = inst["prog"][-1]["op"] == "gauss"
+    energy = inst["prog"][-1]["op"] in ("gauss", "vcg")
     n = 0
-    for pt in cc.POINTS[:3]:
+    for pt in cc.points_for(inst)[:3]:
         try:
             val, jac, inner = cc.expected(inst, pt)
         except cc.Singular:
@@ -45,10 +45,11 @@ def check_program(b, inst):
                 if sop.target is not op.target:
                     out.append(("target", "%s: the target changed" % where))
                 x = ift.MultiField.from_dict({free: ift.makeField(b.dom, pt[free].copy())})
-                plain = np.atleast_1d(sop(x).asnumpy()).ravel()
+                fl = lambda f: np.atleast_1d((f["s"] if isinstance(f, ift.MultiField) else f).asnumpy()).ravel()
+                plain = fl(sop(x))
                 lin = sop(ift.Linearization.make_var(x, want_metric=energy))
                 J, JT = b.dense_jac(sop, lin)
-                if not cc.close(plain, val) or not cc.close(np.atleast_1d(lin.val.asnumpy()).ravel(), val):
+                if not cc.close(plain, val) or not cc.close(fl(lin.val), val):
                     out.append(("value", "%s: value %s, the original operator with the constant inserted gives %s" % (where, plain.tolist(), val.tolist())))
                 if not cc.close(J[:, fcols], jac[:, fcols]):
                     out.append(("jacobian", "%s: Jacobian %s, the columns of the free key are %s" % (where, np.round(J[:, fcols], 8).tolist(), np.round(jac[:, fcols], 8).tolist())))
@@ -83,7 +84,7 @@ def check_program(b, inst):
 
 def run(ctx):
     b = cc.Builder()
-    progs = [p for p in cc.emit_programs(ctx, ctx.quick, "C04", preload=True) if sorted(p["keys"]) == ["a", "b"]]
+    progs = [p for p in cc.emit_programs(ctx, ctx.quick, "C04", preload="all") if sorted(p["keys"]) == ["a", "b"]]
     if len(progs) < 100:
         raise tlcmod.MachineryError("too few programs with both keys: %d" % len(progs))
     tot = 0
@@ -117,7 +118,7 @@ def replay(ctx, doc):
 
 def selftest(ctx):
     b = cc.Builder()
-    r = tlcmod.run("Calculus", 'CONSTANTS MaxSlots = 3\nFnSet = "rat"\nPreload = FALSE\nSPECIFICATION Spec\nINVARIANT Emit\nCHECK_DEADLOCK FALSE\n', workers=1, timeout=900)
+    r = tlcmod.run("Calculus", 'CONSTANTS MaxSlots = 3\nFnSet = "rat"\nPreload = "none"\nSPECIFICATION Spec\nINVARIANT Emit\nCHECK_DEADLOCK FALSE\n', workers=1, timeout=900)
     inst = next(i for i in r.emitted if sorted(i["keys"]) == ["a", "b"] and i["prog"][-1]["op"] == "mul")
     with quiet():
         good, _ = check_program(b, inst)
